@@ -61,6 +61,8 @@ class C04(Prop):
         "RxModel.GenTie.WiringSkipUntil": ['skipuntil'],
         "RxModel.GenTie.Sample": ['sample'],
         "RxModel.GenTie.WiringSample": ['sample'],
+        "RxModel.GenTie.BufferCell": ['buffer'],
+        "RxModel.GenTie.WiringBuffer": ['buffer'],
     }
 
     def cases(self, tier, seed):
